@@ -1,4 +1,5 @@
 """Replay of counterexamples and known findings on the real code (DESIGN.md §3.6)."""
+import fcntl
 import json
 import os
 import shutil
@@ -38,6 +39,8 @@ def run_rust(main_rs, repo, work, profiles=("debug", "release"), hooks=False):
     else:
         env.pop("RUSTFLAGS", None)
     out = {}
+    lockf = open(os.path.join(work, "replay.lock"), "w")
+    fcntl.flock(lockf, fcntl.LOCK_EX)
     for prof in profiles:
         cmd = ["cargo", "run", "--offline", "-q"] + (["--release"] if prof == "release" else [])
         p = subprocess.run(cmd, cwd=d, env=env, stdout=subprocess.PIPE, stderr=subprocess.PIPE, text=True, timeout=1200)
@@ -45,6 +48,8 @@ def run_rust(main_rs, repo, work, profiles=("debug", "release"), hooks=False):
             out[prof] = "BUILD-OR-RUN-ERROR: " + p.stderr[-2000:]
         else:
             out[prof] = p.stdout
+    fcntl.flock(lockf, fcntl.LOCK_UN)
+    lockf.close()
     return out
 
 
